@@ -63,7 +63,9 @@ impl<'a> Ctx<'a> {
         match self.rng.below(10) {
             0 => c(CardBody::ScalarNil),
             1 => c(CardBody::ScalarFloat(*self.rng.pick(&[0.5, 1.5, -2.0, 3.0, 0.0]))),
-            2 => c(CardBody::StringLiteral(self.rng.pick(&["", "a", "key", "value", "héllo"]).to_string())),
+            // (strings that are suffixes of one another; an integer whose last encoded byte equals an opcode)
+            2 => c(CardBody::StringLiteral(self.rng.pick(&["", "a", "key", "value", "héllo", "keyvalue", "lue", "é"]).to_string())),
+            3 if self.rng.chance(1, 6) => int(*self.rng.pick(&[0x1B00_0000_0000_0000i64, 0x0100_0000_0000_001Bi64, 0x2E00_0000_0000_0000i64])),
             _ => int(*self.rng.pick(&[0, 1, 2, 3, 5, 7, -1, 10, 42])),
         }
     }
@@ -214,7 +216,14 @@ impl<'a> Ctx<'a> {
                     Card::dynamic_call(c(CardBody::NativeFunction(name.into())), vec![t, looping(vec!["key", "val"], "val", n)])
                 } else {
                     let arg = self.scalar();
-                    Card::dynamic_call(c(CardBody::NativeFunction("callback".into())), vec![looping(vec!["p"], "p", n), arg])
+                    // `pcall` swallows the callee's error (also a Timeout: the budget stays exhausted)
+                    let host = *self.rng.pick(&["callback", "pcall", "pcall"]);
+                    let n = if host == "pcall" && self.rng.chance(1, 2) { self.rng.range(50, 400) } else { n };
+                    if self.rng.chance(1, 2) {
+                        Card::dynamic_call(c(CardBody::NativeFunction(host.into())), vec![looping(vec!["p"], "p", n), arg])
+                    } else {
+                        Card::call_native(host, vec![looping(vec!["p"], "p", n), arg])
+                    }
                 }
             }
             _ => self.atom(),
@@ -606,6 +615,16 @@ pub fn gen_program(rng: &mut Rng, opts: &GenOpts) -> Module {
             for (i, l) in ls.iter().enumerate().take(6) {
                 cards.push(Card::set_global_var(format!("out{i}"), read(l)));
             }
+        } else if ctx.rng.chance(1, 4) {
+            // the last card returns on one path only: the implicit `nil` return must still be there
+            let cond = ctx.expr(1);
+            let v = ctx.expr(1);
+            let other = composite(ctx.stmts(1, 1, false));
+            cards.push(match ctx.rng.below(3) {
+                0 => c(CardBody::IfElse(Box::new([cond, Card::return_card(v), other]))),
+                1 => c(CardBody::IfElse(Box::new([cond, other, Card::return_card(v)]))),
+                _ => bin(CardBody::IfTrue, cond, Card::return_card(v)),
+            });
         } else if ctx.rng.chance(2, 3) {
             let v = ctx.expr(2);
             cards.push(Card::return_card(v));
@@ -649,6 +668,156 @@ pub fn gen_program(rng: &mut Rng, opts: &GenOpts) -> Module {
         submodules.push(("s".to_string(), Module { submodules: subsub, functions: sfs, imports: sub_imports }));
     }
     let mut functions = functions;
+    if rng.chance(1, 4) {
+        // script-level table operations on one table (also reached through an alias): explicit
+        // integer keys at or above the length followed by appends, nil keys and nil values, pops,
+        // lengths in between, a for-each that counts and sums, the table published at the end
+        if let Some((_, main)) = functions.iter_mut().find(|(n, _)| n == "main") {
+            let t = "tq".to_string();
+            let alias = "tqa".to_string();
+            let mut cards = vec![Card::set_var(t.clone(), c(CardBody::CreateTable)), Card::set_var(alias.clone(), read(&t))];
+            let nops = rng.range(4, 11);
+            let mut outs = 0;
+            for _ in 0..nops {
+                let target = if rng.chance(1, 3) { read(&alias) } else { read(&t) };
+                let value = match rng.below(5) {
+                    0 => c(CardBody::ScalarNil),
+                    1 => c(CardBody::StringLiteral(rng.pick(&["a", "bb", ""]).to_string())),
+                    _ => int(rng.range(-2, 9)),
+                };
+                match rng.below(8) {
+                    0..=2 => {
+                        let key = match rng.below(6) {
+                            0 => c(CardBody::ScalarNil),
+                            1 => c(CardBody::StringLiteral(rng.pick(&["a", "key"]).to_string())),
+                            _ => int(rng.range(0, 7)),
+                        };
+                        cards.push(Card::set_property(value, target, key));
+                    }
+                    3..=5 => cards.push(bin(CardBody::AppendTable, value, target)),
+                    6 => {
+                        cards.push(Card::set_global_var(format!("outqp{outs}"), c(CardBody::PopTable(cao_lang::compiler::UnaryExpression::new(target)))));
+                        outs += 1;
+                    }
+                    _ => {
+                        cards.push(Card::set_global_var(format!("outql{outs}"), c(CardBody::Len(cao_lang::compiler::UnaryExpression::new(target)))));
+                        outs += 1;
+                    }
+                }
+            }
+            cards.push(Card::set_var("xqn", int(0)));
+            cards.push(Card::set_var("xqs", int(0)));
+            cards.push(c(CardBody::ForEach(Box::new(ForEach {
+                i: Some("iq".into()),
+                k: Some("kq".into()),
+                v: Some("vq".into()),
+                iterable: Box::new(read(&t)),
+                body: Box::new(composite(vec![
+                    Card::set_var("xqn", bin(CardBody::Add, read(&"xqn".to_string()), int(1))),
+                    Card::set_var("xqs", bin(CardBody::Add, read(&"xqs".to_string()), bin(CardBody::Mul, read(&"iq".to_string()), int(3)))),
+                ])),
+            }))));
+            cards.push(Card::set_global_var("outqn", read(&"xqn".to_string())));
+            cards.push(Card::set_global_var("outqs", read(&"xqs".to_string())));
+            cards.push(Card::set_global_var("outqt", read(&alias)));
+            let at = main.cards.len().min(5);
+            for (j, cd) in cards.into_iter().enumerate() {
+                main.cards.insert(at + j, cd);
+            }
+        }
+    }
+    if rng.chance(1, 4) {
+        // closures created once per loop iteration, each capturing 1-3 variables of that iteration
+        // (and sometimes an uncaptured one in between), collected in a table and called after the loop
+        if let Some((_, main)) = functions.iter_mut().find(|(n, _)| n == "main") {
+            let k = rng.range(1, 4) as usize;
+            let n = rng.range(2, 4);
+            let mut body: Vec<Card> = vec![];
+            let mut e = int(0);
+            for j in 0..k {
+                let name = format!("lv{j}");
+                body.push(Card::set_var(name.clone(), bin(CardBody::Add, bin(CardBody::Mul, read(&"li".to_string()), int(10 + j as i64)), int(j as i64))));
+                if rng.chance(1, 3) {
+                    body.push(Card::set_var(format!("lu{j}"), int(99)));
+                }
+                e = bin(CardBody::Add, bin(CardBody::Mul, e, int(100)), read(&name));
+            }
+            body.push(bin(CardBody::AppendTable, c(CardBody::Closure(Box::new(Function { arguments: vec![], cards: vec![Card::return_card(e)] }))), read(&"tcl".to_string())));
+            let looped = match rng.below(2) {
+                0 => c(CardBody::Repeat(Box::new(Repeat { i: Some("li".into()), n: int(n), body: composite(body) }))),
+                _ => composite(vec![
+                    Card::set_var("li", int(0)),
+                    bin(CardBody::While, bin(CardBody::Less, read(&"li".to_string()), int(n)), composite({
+                        let mut b = body;
+                        b.push(Card::set_var("li", bin(CardBody::Add, read(&"li".to_string()), int(1))));
+                        b
+                    })),
+                ]),
+            };
+            let at = main.cards.len().min(5);
+            let mut extra = vec![Card::set_var("tcl", c(CardBody::CreateTable)), looped];
+            for j in 0..n {
+                extra.push(Card::set_global_var(format!("outl{j}"), Card::dynamic_call(Card::get_property(read(&"tcl".to_string()), int(j)), vec![])));
+            }
+            for (j, cd) in extra.into_iter().enumerate() {
+                main.cards.insert(at + j, cd);
+            }
+        }
+    }
+    if rng.chance(1, 4) {
+        // closures that outlive their creator WITHOUT being returned: `stash(p)` captures its
+        // parameter and a local and appends the closure to a global table, then falls off its end;
+        // two factories with a closure at the same card path but different bodies; a closure
+        // nested in a closure created once per loop iteration (captured through two levels)
+        let stash = Function {
+            arguments: vec!["sp".into()],
+            cards: vec![
+                Card::set_var("sl", bin(CardBody::Mul, read(&"sp".to_string()), int(2))),
+                bin(CardBody::AppendTable, c(CardBody::Closure(Box::new(Function { arguments: vec![], cards: vec![Card::return_card(bin(CardBody::Add, read(&"sp".to_string()), read(&"sl".to_string())))] }))), read(&"gstash".to_string())),
+            ],
+        };
+        let mk = |k: i64| Function {
+            arguments: vec![],
+            cards: vec![
+                Card::set_var("mv", int(k)),
+                Card::return_card(c(CardBody::Closure(Box::new(Function { arguments: vec![], cards: vec![Card::return_card(bin(CardBody::Add, read(&"mv".to_string()), int(k * 100)))] })))),
+            ],
+        };
+        functions.push(("stash".to_string(), stash));
+        functions.push(("mka".to_string(), mk(1)));
+        functions.push(("mkb".to_string(), mk(2)));
+        if let Some((_, main)) = functions.iter_mut().find(|(n, _)| n == "main") {
+            let at = main.cards.len().min(5);
+            let n = rng.range(2, 4);
+            let nested_loop = c(CardBody::Repeat(Box::new(Repeat {
+                i: Some("ni".into()),
+                n: int(n),
+                body: composite(vec![
+                    Card::set_var("nv", bin(CardBody::Mul, read(&"ni".to_string()), int(7))),
+                    bin(CardBody::AppendTable, c(CardBody::Closure(Box::new(Function { arguments: vec![], cards: vec![Card::return_card(c(CardBody::Closure(Box::new(Function { arguments: vec![], cards: vec![Card::return_card(read(&"nv".to_string()))] }))))] }))), read(&"tnest".to_string())),
+                ]),
+            })));
+            let mut extra = vec![
+                Card::set_global_var("gstash", c(CardBody::CreateTable)),
+                Card::set_var("xs1", Card::call_function("stash", vec![int(7)])),
+                Card::set_var("xs2", Card::call_function("stash", vec![int(20)])),
+                Card::set_global_var("outs1", Card::dynamic_call(Card::get_property(read(&"gstash".to_string()), int(0)), vec![])),
+                Card::set_global_var("outs2", Card::dynamic_call(Card::get_property(read(&"gstash".to_string()), int(1)), vec![])),
+                Card::set_var("fa0_1", Card::call_function("mka", vec![])),
+                Card::set_var("fb0_1", Card::call_function("mkb", vec![])),
+                Card::set_global_var("outma", Card::dynamic_call(read(&"fa0_1".to_string()), vec![])),
+                Card::set_global_var("outmb", Card::dynamic_call(read(&"fb0_1".to_string()), vec![])),
+                Card::set_var("tnest", c(CardBody::CreateTable)),
+                nested_loop,
+            ];
+            for j in 0..n {
+                extra.push(Card::set_global_var(format!("outn{j}"), Card::dynamic_call(Card::dynamic_call(Card::get_property(read(&"tnest".to_string()), int(j)), vec![]), vec![])));
+            }
+            for (j, cd) in extra.into_iter().enumerate() {
+                main.cards.insert(at + j, cd);
+            }
+        }
+    }
     if rng.chance(1, 3) {
         // a closure factory: k locals captured in a random order (and one of them written), the
         // closure is returned and called after the factory's frame is gone, from a deeper stack
@@ -836,6 +1005,19 @@ pub fn gen_alloc_program(rng: &mut Rng, size: usize, with_submodules: bool) -> M
             c(CardBody::Closure(Box::new(Function { arguments: vec!["p".into()], cards: vec![Card::set_var("q", c(CardBody::Array(vec![int(1), int(2)]))), Card::return_card(read(&"p".to_string()))] }))),
             // (not an `Array` card: its hidden local would overwrite the pending first argument)
             Card::call_native("mktable", vec![c(CardBody::StringLiteral("only-here".into()))]),
+        ])));
+        // typed host functions of arity 3 and 4 whose arguments are fresh temporaries: they
+        // allocate before they use them
+        pre.push(Card::set_global_var("outh3", Card::call_native("three", vec![
+            c(CardBody::StringLiteral("first-arg".into())),
+            Card::call_native("mktable", vec![c(CardBody::StringLiteral("second".into()))]),
+            c(CardBody::StringLiteral("third".into())),
+        ])));
+        pre.push(Card::set_global_var("outh4", Card::call_native("four", vec![
+            c(CardBody::StringLiteral("a1".into())),
+            c(CardBody::StringLiteral("a2".into())),
+            Card::call_native("mktable", vec![int(3)]),
+            c(CardBody::StringLiteral("a4-returned".into())),
         ])));
         pre.push(Card::set_global_var("oute", Card::call_native("__to_array", vec![c(CardBody::Array(vec![c(CardBody::StringLiteral("x".into())), c(CardBody::StringLiteral("y".into()))]))])));
         let keyfn = c(CardBody::Closure(Box::new(Function { arguments: vec!["key".into(), "val".into()], cards: vec![Card::set_var("junk", c(CardBody::Array(vec![int(7)]))), Card::return_card(read(&"val".to_string()))] })));
